@@ -422,7 +422,7 @@ example :
 `t` of content 1 kept elsewhere is refused; the same table given as a stream is answered ok, leaves the record as it
 was and saves the stream as an extra file; a streamed table IS compared — as an external file — once the extra
 directory exists -/
-example :
+theorem C06_streamed_table_not_compared_witness :
     let p : Name := [112]; let L : Flav := [76]
     let d1 : Dir := ⟨0, relDir L p [49]⟩
     let t : Dir := ⟨0, [116]⟩
@@ -435,6 +435,36 @@ example :
       underUpsDb 0 t = false ∧ byPath.out = .refused) ∧
     (byStream.out = .ok ∧ byStream.w.db = w.db ∧ byStream.w.extras = [⟨0, L, p, [49], tablePathOf p, 1⟩]) ∧
     again.out = .refused := by decide
+
+/-- **D38 (open).**  `declare p 1 <dir1> -M` (the table as a stream, content 1: interned), then `declare p 2 <dir2> -m
+<the interned table of p 1>`: the path lies below `ups_db` of the stack, so it is taken for the interned table of p 2
+itself; the command answers ok, the files declare p 2 with an interned table, and there is no such file — while the
+file that was named exists and has content 1. -/
+theorem C06_interned_table_dangling_witness :
+    let p : Name := [112]; let L : Flav := [76]
+    let d1 : Dir := ⟨0, relDir L p [49]⟩; let d2 : Dir := ⟨0, relDir L p [50]⟩
+    let dirs : List DirEnt := [⟨d1, p⟩, ⟨d2, p⟩]
+    let w := runHistory (World.init 1 dirs) [.run 1 (.declare ⟨L, p, [49], some d1, none, .stream 1, none, false, false, []⟩) none]
+    let r := stepG true w (.run 1 (.declare ⟨L, p, [50], some d2, none, .path (internedLoc 0 L p [49]), none, false, false, []⟩) none)
+    (onDisk w).fileContent (internedLoc 0 L p [49]) = some 1 ∧ r.out = .ok ∧
+    r.w.db.findDecl 0 p [50] L = some ⟨0, p, [50], L, d2, .interned⟩ ∧
+    (onDisk r.w).tableContent ⟨0, p, [50], L, d2, .interned⟩ = none := by decide
+
+/-- **D44 (open).**  The outcome of a command can depend on the state of the cache.  `declare p 2` for Linux and for
+generic; the environment says `p 2 -f Linux` is set up in stack 0; a generic process undeclares `p 2`.  With its cache
+files in place the process reads the generic flavor only, does not find the set-up Linux version and undeclares; with
+the generic cache file deleted the stack is rebuilt from the database, holds every flavor, the set-up version is
+found and the command is refused — the database files being the same in both cases. -/
+theorem C06_setup_foreign_flavor_cache_dependent_witness :
+    let p : Name := [112]; let L : Flav := [76]
+    let dL : Dir := ⟨0, relDir L p [50]⟩; let dG : Dir := ⟨0, relDir generic p [50]⟩
+    let dirs : List DirEnt := [⟨dL, p⟩, ⟨dG, p⟩]
+    let w := runHistory (World.init 1 dirs)
+      [.run 1 (.declare ⟨L, p, [50], some dL, none, .dflt, none, false, false, []⟩) none,
+       .run 1 (.declare ⟨generic, p, [50], some dG, none, .dflt, none, false, false, []⟩) none]
+    let w' := step w (.rmCache 1 0 generic)
+    let cmd : WCmd := .run 1 (.undeclare ⟨generic, p, some [50], none, none, false, false, false, some ([50], L, 0)⟩) none
+    w'.db = w.db ∧ (stepG true w cmd).out = .ok ∧ (stepG true w' cmd).out = .refused := by decide
 
 /-- a plain history in which a tag really moves between stacks: `declare p 1 <dir in stack 0> -t beta`, then
 `declare p 2 <dir in stack 1> -t beta`: afterwards `beta` is in stack 1 only.  Killed right after its
